@@ -1329,7 +1329,10 @@ def rule_RG(run: Run) -> RuleResult:
             how.append(f"{tk[:50]}.{e.text}({ak[:30]}, …) [{bulk[e.text][0]}.{e.text} registers under every element: {bulk[e.text][1]}]")
             ok = ok and good
             continue
-        good = tk.startswith("elem(elem(") and ak == "elem(aliases)" and not getattr(e.args[0], "partial", False)
+        # the registration is issued on an element of what was collected from the interfaces (a member list per name, or the members of
+        # one interface at a time) under an element of the aliases, both walked whole
+        from_members = tk.startswith("elem(elem(") or (tk.startswith("elem(") and "interfaces" in tk and not getattr(e.target, "partial", False))
+        good = from_members and ak == "elem(aliases)" and not getattr(e.args[0], "partial", False)
         how.append(f"{tk[:50]}.register({ak[:30]}, …)")
         ok = ok and good
     res.add("labrea.interface.Implementation.__init__:every member registered under every alias", ok, im.module.relpath, fn.lineno,
